@@ -622,3 +622,103 @@ func (s *Session) IsMaxFloat(a Scalar, sign int64) bool {
 	}
 	return c.Cmp(mf) == 0
 }
+
+// ---------------------------------------------------------------- exports used by C03's AREA law
+
+// LinearIn solves an inequality atom for sym when it is linear in it with a constant
+// coefficient: the atom reads  q > sym / q >= sym  (symOnRight) or  sym > q / sym >= q.
+func (s *Session) LinearIn(a Atom, sym SymDesc) (q Scalar, symOnRight, strict, ok bool) {
+	if a.p == nil {
+		return Scalar{}, false, false, false
+	}
+	e := s.k.e
+	rest := newPoly()
+	var coef *big.Rat
+	for _, t := range a.p.t {
+		exp := int32(0)
+		for _, se := range t.m {
+			if se.s == sym.id {
+				exp = se.e
+			}
+		}
+		switch {
+		case exp == 0:
+			rest.addTerm(t.m, t.c)
+		case exp == 1 && len(t.m) == 1:
+			if coef != nil {
+				return Scalar{}, false, false, false
+			}
+			coef = t.c
+		default:
+			return Scalar{}, false, false, false // non-linear in sym, or sym multiplied by other symbols
+		}
+	}
+	if coef == nil {
+		return Scalar{}, false, false, false
+	}
+	// sym must not hide inside applications of the rest
+	for _, id := range rest.Support() {
+		if s.mentions(id, sym.id, map[symID]bool{}) {
+			return Scalar{}, false, false, false
+		}
+	}
+	// P = coef·sym + rest  (> 0 or >= 0)
+	if coef.Sign() < 0 {
+		// rest > −coef·sym  ⇒  rest/(−coef) > sym
+		q = Scalar{v: rfPoly(rest.Scale(new(big.Rat).Inv(new(big.Rat).Neg(coef))))}
+		return q, true, a.strict, true
+	}
+	q = Scalar{v: rfPoly(rest.Neg().Scale(new(big.Rat).Inv(coef)))}
+	_ = e
+	return q, false, a.strict, true
+}
+
+func (s *Session) mentions(id, target symID, seen map[symID]bool) bool {
+	if id == target {
+		return true
+	}
+	if seen[id] {
+		return false
+	}
+	seen[id] = true
+	if ai := s.k.e.apps[id]; ai != nil {
+		for _, a := range ai.args {
+			for _, t := range a.Support() {
+				if s.mentions(t, target, seen) {
+					return true
+				}
+			}
+		}
+	}
+	return false
+}
+
+// AtomMentions: does the atom's polynomial (applications opened) mention sym?
+func (s *Session) AtomMentions(a Atom, sym SymDesc) bool {
+	if a.p == nil {
+		return false
+	}
+	for _, id := range a.p.Support() {
+		if s.mentions(id, sym.id, map[symID]bool{}) {
+			return true
+		}
+	}
+	return false
+}
+
+// ElemAt is the symbolic element array[idx] for the array of path p whose id ends with suffix.
+func (s *Session) ElemAt(p *Path, suffix string, idx Scalar) (Val, string) {
+	var so *SliceObj
+	for id, x := range p.slices {
+		if strings.HasSuffix(id, suffix) {
+			if so != nil && so.id != x.id {
+				return nil, "more than one array matches " + suffix
+			}
+			so = x
+		}
+	}
+	if so == nil {
+		return nil, "no array " + suffix + " is read on this path"
+	}
+	return s.k.e.elemSym(so, idx), so.id
+}
